@@ -61,7 +61,8 @@ ASSUMPTIONS = [
     "or a comparison is not boosted directly (no documented syntax)",
     "SimpleParser/DisMaxParser language: '+w' required, '-w' prohibited, bare words/phrases optional (flat OR) as "
     "documented for PlusMinusPlugin; an expression with only prohibited words is not generated (no documented reading)",
-    "nesting depth of generated strings is <= 120 in population A; population B (soup: ~0.3% of strings) nests 1000 "
+    "nesting depth of generated strings is <= 60 in population A (about 8 interpreter frames are used per nesting "
+    "level, so real groups nested ~120 deep already reach the default recursion limit of 1000); population B (soup: ~0.3% of strings) nests 1000 "
     "groups, where the parser's recursive filters exceed the interpreter's recursion limit: a "
     "RecursionError there is classified as the listed finding known:recursion-limit-on-deep-nesting, anywhere else "
     "it is a violation; every case is bounded (<= ~3000 characters) and a hang is turned into inconclusive by the "
@@ -306,7 +307,7 @@ def gen_soup(rng, W):
             classes.append("_" if sep else "")
         return "".join(parts), tuple(classes)
     if r < 0.78:
-        depth = rng.choice([1, 2, 3, 5, 10, 20, 40, 40, 80, 120])
+        depth = rng.choice([1, 2, 3, 5, 10, 20, 40, 40, 60])
         opener = rng.choice(["(", "t:(", "NOT (", "(a ", "((", "\"(", "k:(b OR "])
         if rng.random() < 0.04:
             # population B: deep enough for the recursive filters to hit the interpreter's recursion limit
